@@ -5,7 +5,11 @@
 #include <chrono>
 #include <cstdint>
 int64_t verif_clock_ns = 1700000000000000000LL;
-int64_t verif_clock_step = 1000003;
+#include <cstdlib>
+// VERIF_CLOCK_STEP_NS: nanoseconds the clock advances per reading (default about 1 ms); a huge step lets a short run span
+// hundreds of hours of "computation time"
+static int64_t initial_step(){ const char* e = std::getenv("VERIF_CLOCK_STEP_NS"); return e ? std::atoll(e) : 1000003; }
+int64_t verif_clock_step = initial_step();
 extern "C" std::chrono::system_clock::time_point __wrap__ZNSt6chrono3_V212system_clock3nowEv() {
     int64_t v = __atomic_add_fetch(&verif_clock_ns, verif_clock_step, __ATOMIC_RELAXED);
     return std::chrono::system_clock::time_point(std::chrono::duration_cast<std::chrono::system_clock::duration>(std::chrono::nanoseconds(v)));
